@@ -496,11 +496,12 @@ func lexGohtTextContent(l *lexer) lexFn {
 	l.acceptUntil("\\#\n\r")
 	switch l.peek() {
 	case '\\':
-		isHashComing, err := l.peekAhead(2)
+		isHashComing, err := l.peekAhead(3)
 		if err != nil {
 			return l.errorf("unexpected error: %s", err)
 		}
-		if isHashComing == "\\#" {
+		// only `\#{` is an escape; a backslash before a plain `#` is ordinary text
+		if isHashComing == "\\#{" {
 			l.skip()
 			// was the backslash being escaped?
 			if !strings.HasSuffix(l.current(), "\\") {
